@@ -288,6 +288,18 @@ def rule_scoped_propagation(rep, idx, rid='R9'):
                             hit = True
                         elif n2 in ('find', 'at', 'count') or (x['kind'] == 'CXXMemberCallExpr' and n2 == 'lookup'):
                             foreign.append('%s at %s' % (n2, pos(x)))
+                        else:
+                            # a helper of the visitor itself: its return expressions belong to the slice
+                            g = idx.func_by_id.get(d2) if d2 else None
+                            g = g.defn if (g is not None and g.body is None and getattr(g, 'defn', None)) else g
+                            if g is not None and g.body is not None and g.cls == 'xcmp::ConstProp' and g.id not in seen:
+                                seen.add(g.id)
+                                for dd in walk(g.body):
+                                    if dd['kind'] == 'VarDecl' and children(dd):
+                                        inits[dd['id']] = children(dd)[-1]
+                                for r_ in walk(g.body):
+                                    if r_['kind'] == 'ReturnStmt' and children(r_):
+                                        todo.append(children(r_)[0])
                     if x['kind'] == 'CXXOperatorCallExpr' and callee_of(x)[1] == 'operator[]':
                         foreign.append('operator[] at %s' % pos(x))
                     if x['kind'] == 'DeclRefExpr':
